@@ -58,6 +58,93 @@ theorem enter_closed (s : RState) (agg : Order) (market : Bool) (htr : s.trading
   · rw [hl.1, ho'.trades]; simp only [hpre]
   · rw [hl.2, ho'.aggVol]; simp only [hpre]
 
+theorem setQueue_queue_self (s : RState) (sd : Side) (q : List Nat) : (s.setQueue sd q).queue sd = q := by
+  cases sd <;> rfl
+
+theorem setQueue_opp_queue (s : RState) (sd : Side) (q : List Nat) : (s.setQueue sd.opp q).queue sd = s.queue sd := by
+  cases sd <;> rfl
+
+theorem enqueue_congr (os os' : List Order) (sd : Side) (q : List Nat) (id price : Nat)
+    (h : ∀ i, priceOf os' i = priceOf os i) : enqueue os' sd q id price = enqueue os sd q id price := by
+  unfold enqueue
+  have : (fun j => ahead sd (priceOf os' j) price) = (fun j => ahead sd (priceOf os j) price) := by
+    funext j; rw [h j]
+  rw [this]
+
+/-- **What becomes of the arriving order itself** (second sentence of C01): nothing left — Filled, ended now, not queued;
+something left of a market order — discarded (Cancelled, ended now, not queued); something left of a limit order —
+it rests: its own side's queue becomes `enqueue … id price`, i.e. behind every resting order with a better or
+equal price and ahead of the rest (`ref_enqueue_position`). -/
+theorem enter_rest (s : RState) (agg : Order) (market : Bool) (htr : s.trading = true)
+    (hnd : (s.queue agg.side.opp).Nodup) (hval : ∀ j ∈ s.queue agg.side.opp, j < s.orders.length)
+    (hV : 0 < agg.vol) (hst : agg.status ≠ .filled) :
+    let r := enter s agg market
+    (r.2.vol = 0 → r.2.status = .filled ∧ r.2.endt = s.t ∧ r.1.queue agg.side = s.queue agg.side) ∧
+    (0 < r.2.vol → market = true → r.2.status = .cancelled ∧ r.2.endt = s.t ∧ r.1.queue agg.side = s.queue agg.side) ∧
+    (0 < r.2.vol → market = false → r.2.status = agg.status ∧ r.2.endt = agg.endt ∧
+      r.1.queue agg.side = enqueue s.orders agg.side (s.queue agg.side) agg.id agg.price) ∧
+    r.2.side = agg.side ∧ r.2.price = agg.price ∧ r.2.id = agg.id := by
+  intro r
+  let m := matchQ s.t (s.queue agg.side.opp) ⟨s.orders, s.trades, s.tradeVol, agg⟩
+  have ho := matchQ_outcome s.t (s.queue agg.side.opp) ⟨s.orders, s.trades, s.tradeVol, agg⟩ hnd hval
+  have hs := matchQ_agg_status s.t (s.queue agg.side.opp) ⟨s.orders, s.trades, s.tradeVol, agg⟩ hval hV
+  obtain ⟨hside, hprice, hid, _, _, _⟩ := ho.aggSame
+  have hpr : ∀ i, priceOf m.2.orders i = priceOf s.orders i := by
+    intro i; show priceOf (matchQ _ _ _).2.orders i = _; rw [ho.orders]; exact fold_priceOf _ _ _ _
+  by_cases hz : m.2.agg.vol = 0
+  · -- nothing left
+    have hfill : m.2.agg.status = .filled := by have := hs.1; simp only [show (matchQ _ _ _).2.agg.vol = 0 from hz, ↓reduceIte] at this; exact this
+    have hend : m.2.agg.endt = s.t := by have := hs.2; simp only [show (matchQ _ _ _).2.agg.vol = 0 from hz, ↓reduceIte] at this; exact this
+    have hr : r = ({ (s.setQueue agg.side.opp m.1) with orders := m.2.orders, trades := m.2.trades, tradeVol := m.2.tradeVol }, m.2.agg) := by
+      show enter s agg market = _
+      unfold enter
+      simp only [htr, Bool.not_true, Bool.and_false, Bool.false_eq_true, ↓reduceIte]
+      rw [if_pos hfill]
+    rw [hr]
+    refine ⟨fun _ => ⟨hfill, hend, ?_⟩, fun h => absurd hz (by simp only at h; omega), fun h => absurd hz (by simp only at h; omega), hside, hprice, hid⟩
+    show ({ (s.setQueue agg.side.opp m.1) with orders := m.2.orders, trades := m.2.trades, tradeVol := m.2.tradeVol } : RState).queue agg.side = _
+    have : ∀ (x : RState) (os : List Order) (ts : List Trade) (tv : Nat) (sd : Side),
+        ({ x with orders := os, trades := ts, tradeVol := tv } : RState).queue sd = x.queue sd := by
+      intro x os ts tv sd; cases sd <;> rfl
+    rw [this, setQueue_opp_queue]
+  · have hnf : m.2.agg.status ≠ .filled := by
+      have := hs.1; simp only [show ¬ (matchQ _ _ _).2.agg.vol = 0 from hz, ↓reduceIte] at this
+      show (matchQ _ _ _).2.agg.status ≠ _; rw [this]; exact hst
+    have hstat : m.2.agg.status = agg.status := by
+      have := hs.1; simp only [show ¬ (matchQ _ _ _).2.agg.vol = 0 from hz, ↓reduceIte] at this; exact this
+    have hend : m.2.agg.endt = agg.endt := by
+      have := hs.2; simp only [show ¬ (matchQ _ _ _).2.agg.vol = 0 from hz, ↓reduceIte] at this; exact this
+    have hq : ∀ (x : RState) (os : List Order) (ts : List Trade) (tv : Nat) (sd : Side),
+        ({ x with orders := os, trades := ts, tradeVol := tv } : RState).queue sd = x.queue sd := by
+      intro x os ts tv sd; cases sd <;> rfl
+    cases market with
+    | true =>
+      have hr : r = ({ (s.setQueue agg.side.opp m.1) with orders := m.2.orders, trades := m.2.trades, tradeVol := m.2.tradeVol },
+          { m.2.agg with status := .cancelled, endt := (s.setQueue agg.side.opp m.1).t }) := by
+        show enter s agg true = _
+        unfold enter
+        simp only [htr, Bool.not_true, Bool.and_false, Bool.false_eq_true, ↓reduceIte]
+        rw [if_neg hnf]
+      rw [hr]
+      refine ⟨fun h => absurd h hz, fun _ _ => ⟨rfl, ?_, ?_⟩, fun _ h => by simp at h, hside, hprice, hid⟩
+      · exact (setQueue_misc s agg.side.opp m.1).1
+      · show ({ (s.setQueue agg.side.opp m.1) with orders := m.2.orders, trades := m.2.trades, tradeVol := m.2.tradeVol } : RState).queue agg.side = _
+        rw [hq, setQueue_opp_queue]
+    | false =>
+      have hr : r = (({ (s.setQueue agg.side.opp m.1) with orders := m.2.orders, trades := m.2.trades, tradeVol := m.2.tradeVol } : RState).setQueue agg.side
+            (enqueue m.2.orders agg.side (({ (s.setQueue agg.side.opp m.1) with orders := m.2.orders, trades := m.2.trades, tradeVol := m.2.tradeVol } : RState).queue agg.side)
+              m.2.agg.id m.2.agg.price), m.2.agg) := by
+        show enter s agg false = _
+        unfold enter
+        simp only [htr, Bool.not_true, Bool.and_false, Bool.false_eq_true, ↓reduceIte]
+        rw [if_neg hnf]
+      rw [hr]
+      refine ⟨fun h => absurd h hz, fun _ h => by simp at h, fun _ _ => ⟨hstat, hend, ?_⟩, hside, hprice, hid⟩
+      simp only
+      rw [show m.2.agg.id = agg.id from hid, show m.2.agg.price = agg.price from hprice,
+        setQueue_queue_self, hq, setQueue_opp_queue]
+      exact enqueue_congr _ _ _ _ _ _ hpr
+
 /-- **A re-pricing (or volume-increasing) modification, in closed form**: the order leaves its own
 queue and arrives again with its new price and volume; what it executes is the same greedy allocation. -/
 theorem modify_closed (s : RState) (id : Nat) (o : Order) (np nv : Option Nat) (ho : s.orders[id]? = some o)
@@ -137,6 +224,40 @@ theorem place_closed (s : RState) (id : Nat) (o : Order) (ho : s.orders[id]? = s
     · rw [hl.2, ho'.aggVol]
       simp only [hpre]
 
+/-- The record and the queues `place` leaves are those `enter` returns. -/
+theorem place_record (s : RState) (id : Nat) (o : Order) (ho : s.orders[id]? = some o) (hnew : o.status = .new)
+    (htr : s.trading = true) (hnd : (s.queue o.side.opp).Nodup) (hval : ∀ j ∈ s.queue o.side.opp, j < s.orders.length) :
+    (place s id).orders[id]? = some (enter s { o with status := .active, arr := s.t } (Book.isMarket o)).2 ∧
+    ∀ sd, (place s id).queue sd = (enter s { o with status := .active, arr := s.t } (Book.isMarket o)).1.queue sd := by
+  have hidlt : id < s.orders.length := by
+    rcases Nat.lt_or_ge id s.orders.length with h | h
+    · exact h
+    · simp [List.getElem?_eq_none h] at ho
+  have hpl : place s id =
+      { (enter s { o with status := .active, arr := s.t } (Book.isMarket o)).1 with
+        orders := (enter s { o with status := .active, arr := s.t } (Book.isMarket o)).1.orders.set id
+          (enter s { o with status := .active, arr := s.t } (Book.isMarket o)).2 } := by
+    simp only [place, ho, hnew]; rfl
+  have ho' := matchQ_outcome s.t (s.queue o.side.opp) ⟨s.orders, s.trades, s.tradeVol, { o with status := .active, arr := s.t }⟩ hnd hval
+  have hlen : (enter s { o with status := .active, arr := s.t } (Book.isMarket o)).1.orders.length = s.orders.length := by
+    unfold enter
+    simp only [htr, Bool.not_true, Bool.and_false, Bool.false_eq_true, ↓reduceIte]
+    have hfold : ∀ (l : List (Nat × Nat)) (os : List Order),
+        (l.foldl (fun os x => os.set x.1 (filledBy s.t (orderAt os x.1) x.2)) os).length = os.length := by
+      intro l; induction l with
+      | nil => intro os; rfl
+      | cons x l ih => intro os; simp only [List.foldl_cons]; rw [ih]; simp
+    have hmo := ho'.orders
+    split
+    · simp only; rw [hmo]; exact hfold _ _
+    · split
+      · simp only; rw [hmo]; exact hfold _ _
+      · simp only [setQueue_orders]; rw [hmo]; exact hfold _ _
+  refine ⟨?_, ?_⟩
+  · rw [hpl]; simp only
+    rw [List.getElem?_set_self (by rw [hlen]; exact hidlt)]
+  · intro sd; rw [hpl]; cases sd <;> rfl
+
 end Ref
 
 /-- The queue of a state satisfying the invariant holds distinct, existing ids. -/
@@ -185,6 +306,61 @@ theorem place_greedy {b : Book} (h : Inv b) (id : Nat) (e : Entry) (he : b.order
     | some e' =>
       simp only [hb, Option.map_some, Option.some.injEq] at hg
       exact ⟨e', rfl, by rw [hg]; exact hv'⟩
+
+/-- **What becomes of the placed order, on every state satisfying the invariant** (C01, second sentence): with `rem` what the
+greedy allocation leaves of it — `rem = 0`: Filled, ended at the book time, not queued; a market order with `rem > 0`:
+the rest is discarded (Cancelled, ended at the book time, not queued); a limit order with `rem > 0`: Active and queued on
+its own side at `Ref.enqueue`'s position — behind every resting order with a better or equal price, ahead of the others. -/
+theorem place_rest {b : Book} (h : Inv b) (id : Nat) (e : Entry) (he : b.orders[id]? = some e)
+    (hnew : e.order.status = .new) (htr : b.trading = true) (hnf : (b.placeOrder id).faulted = false) :
+    let s := abs b
+    let o := e.order
+    let adm := (s.queue o.side.opp).filter fun j => Ref.admits o.side o.price (Ref.priceOf s.orders j)
+    let rem := o.vol - (Ref.alloc o.vol (adm.map (Ref.volOf s.orders))).sum
+    ∃ e', (b.placeOrder id).orders[id]? = some e' ∧ e'.order.vol = rem ∧
+      (rem = 0 → e'.order.status = .filled ∧ e'.order.endt = b.t ∧ absq ((b.placeOrder id).side o.side) = s.queue o.side) ∧
+      (0 < rem → Book.isMarket o = true →
+        e'.order.status = .cancelled ∧ e'.order.endt = b.t ∧ absq ((b.placeOrder id).side o.side) = s.queue o.side) ∧
+      (0 < rem → Book.isMarket o = false →
+        e'.order.status = .active ∧ absq ((b.placeOrder id).side o.side) = Ref.enqueue s.orders o.side (s.queue o.side) id o.price) := by
+  intro s o adm rem
+  have hr := place_refines h id hnf
+  have hget : s.orders[id]? = some o := by simp [s, o, abs_get, he]
+  have hq : ∀ sd, s.queue sd = absq (b.side sd) := abs_queue b
+  have hnd : (s.queue o.side.opp).Nodup := by rw [hq]; exact absq_nodup h _
+  have hval := abs_queue_valid h o.side.opp
+  have hs : (s.queue o.side.opp).Pairwise (fun i j => Ref.ahead o.side.opp (Ref.priceOf s.orders i) (Ref.priceOf s.orders j) = true) := by
+    rw [hq]; exact queue_price_sorted h _
+  have hpos : 0 < o.vol := (h.newok id e he hnew).2.1
+  have hid : o.id = id := h.ids id e he
+  let agg : Order := { o with status := .active, arr := s.t }
+  have hrec := Ref.place_record s id o hget hnew htr hnd hval
+  have hcl := Ref.enter_closed s agg (Book.isMarket o) htr hnd hval hs
+  have hrest := Ref.enter_rest s agg (Book.isMarket o) htr hnd hval hpos (by simp [agg])
+  have hg : (abs (b.placeOrder id)).orders[id]? = some (Ref.enter s agg (Book.isMarket o)).2 := by rw [hr]; exact hrec.1
+  have hqq : ∀ sd, absq ((b.placeOrder id).side sd) = (Ref.enter s agg (Book.isMarket o)).1.queue sd := by
+    intro sd; rw [← abs_queue, hr]; exact hrec.2 sd
+  rw [abs_get] at hg
+  cases hb : (b.placeOrder id).orders[id]? with
+  | none => simp [hb] at hg
+  | some e' =>
+    simp only [hb, Option.map_some, Option.some.injEq] at hg
+    have hvol : e'.order.vol = rem := by rw [hg]; exact hcl.2
+    obtain ⟨r0, rm, rl, _, _, _⟩ := hrest
+    refine ⟨e', rfl, hvol, ?_, ?_, ?_⟩
+    · intro h0
+      have := r0 (by rw [← hg, hvol]; exact h0)
+      rw [hg, hqq]; exact this
+    · intro hp hm
+      have := rm (by rw [← hg, hvol]; exact hp) hm
+      rw [hg, hqq]; exact this
+    · intro hp hm
+      have := rl (by rw [← hg, hvol]; exact hp) hm
+      rw [hg, hqq]
+      refine ⟨this.1, ?_⟩
+      have h2 := this.2.2
+      rw [show agg.id = id from hid] at h2
+      exact h2
 
 /-- **A re-pricing modification in closed form on every state satisfying the invariant.** -/
 theorem modify_greedy {b : Book} (h : Inv b) (id : Nat) (e : Entry) (np nv : Option Nat) (he : b.orders[id]? = some e)
